@@ -931,4 +931,591 @@ theorem ewma_no_panic_quantity (chk : Bool) (smoothing : F) (u : DUnit)
 
 end S
 
+/-! ## tier R: exact arithmetic — convexity, constants, first sample -/
+section R
+variable {F : Type} [Field F] [LinearOrder F] [IsStrictOrderedRing F] [FloatLike F] [ExactScalar F]
+
+theorem secs_eq (n : Int) : (secs n : F) = (n : F) / 1000000000 := by
+  simp [secs, ExactScalar.ofInt_eq]
+theorem secs_zero : (secs 0 : F) = 0 := by simp [secs_eq]
+theorem secs_add (a b : Int) : (secs (a + b) : F) = secs a + secs b := by
+  simp only [secs_eq, Int.cast_add]; ring
+theorem secs_nonneg (n : Int) (h : 0 ≤ n) : (0 : F) ≤ secs n := by
+  rw [secs_eq]
+  have : (0 : F) ≤ (n : F) := by exact_mod_cast h
+  positivity
+theorem secs_pos (n : Int) (h : 0 < n) : (0 : F) < secs n := by
+  rw [secs_eq]
+  have : (0 : F) < (n : F) := by exact_mod_cast h
+  positivity
+
+theorem sum_map_secs (l : List Int) : (l.map (fun n => (secs n : F))).sum = secs l.sum := by
+  induction l with
+  | nil => simp [secs_zero]
+  | cons x xs ih => simp only [List.map_cons, List.sum_cons, ih, secs_add]
+
+/-- `Σ v_i · w_i` -/
+def wsumR (l : List (F × F)) : F := (l.map (fun p => p.1 * p.2)).sum
+
+theorem foldl_eq_sum (l : List (F × F)) (a : F) :
+    l.foldl (fun a p => a + scaleF p.1 p.2) a = a + wsumR l := by
+  induction l generalizing a with
+  | nil => simp [wsumR]
+  | cons p rest ih =>
+    rw [List.foldl_cons, ih]
+    simp only [wsumR, List.map_cons, List.sum_cons, scaleF]
+    ring
+
+/-- the generic impl's loop (`T::default()` then `+=`) computes `Σ v_i·w_i` (uses `0 + x = x`) -/
+theorem accumulate_f32_eq (l : List (F × F)) :
+    Ma.accumulate scaleF addF (some (c0 : F)) l = .ok (some (wsumR l)) := by
+  rw [accumulate_eq_maSum scaleF addF (· + ·) (fun _ _ => rfl)]
+  simp only [maSum, foldl_eq_sum, c0_eq, zero_add]
+
+theorem wsum_bounds (l : List (F × F)) (lo hi : F) (hw : ∀ p ∈ l, 0 ≤ p.2)
+    (hv : ∀ p ∈ l, lo ≤ p.1 ∧ p.1 ≤ hi) :
+    lo * (l.map Prod.snd).sum ≤ wsumR l ∧ wsumR l ≤ hi * (l.map Prod.snd).sum := by
+  induction l with
+  | nil => simp [wsumR]
+  | cons p rest ih =>
+    obtain ⟨h1, h2⟩ := ih (fun p hp => hw p (List.mem_cons_of_mem _ hp)) (fun p hp => hv p (List.mem_cons_of_mem _ hp))
+    have hp := hw p (List.mem_cons_self ..)
+    obtain ⟨hl, hh⟩ := hv p (List.mem_cons_self ..)
+    have e1 := mul_le_mul_of_nonneg_right hl hp
+    have e2 := mul_le_mul_of_nonneg_right hh hp
+    simp only [wsumR, List.map_cons, List.sum_cons] at h1 h2 ⊢
+    constructor <;> nlinarith
+
+/-- the f32 weights of a window queue: non-negative, summing to the window length in seconds -/
+theorem maTerms_weights (window : Int) (o : Datum F) (q : List (Datum F)) (h : WinQueue window o q) :
+    (∀ p ∈ maTerms (F := F) (o.time - window) q, 0 ≤ p.2) ∧
+    ((maTerms (F := F) (o.time - window) q).map Prod.snd).sum = secs window := by
+  constructor
+  · intro p hp
+    have h2 := (List.of_mem_zip hp).2
+    obtain ⟨n, hn, e⟩ := List.mem_map.1 h2
+    rw [← e]
+    exact secs_nonneg n ((ma_weights_nonneg window o q h).1 n hn)
+  · rw [(maTerms_eq _ q).2, sum_map_secs, ma_weights_sum_window window o q h]
+
+/-- **C2 core**: for a window queue, the f32 moving average is `(Σ v_i·w_i)/W` with `w_i ≥ 0`, `Σ w_i = W > 0`,
+hence lies between any bounds of the samples in the window -/
+theorem ma_value_convex (window : Int) (hw : 0 < window) (o : Datum F) (q : List (Datum F))
+    (h : WinQueue window o q) (lo hi : F) (hb : ∀ d ∈ q, lo ≤ d.value ∧ d.value ≤ hi) :
+    Ma.accumulate scaleF addF (some (c0 : F)) (maTerms (o.time - window) q) =
+      .ok (some (wsumR (maTerms (o.time - window) q))) ∧
+    lo ≤ divF (wsumR (maTerms (F := F) (o.time - window) q)) (secs window) ∧
+    divF (wsumR (maTerms (F := F) (o.time - window) q)) (secs window) ≤ hi := by
+  refine ⟨accumulate_f32_eq _, ?_⟩
+  obtain ⟨hw0, hsum⟩ := maTerms_weights window o q h
+  have hW : (0 : F) < secs window := secs_pos window hw
+  obtain ⟨h1, h2⟩ := wsum_bounds (maTerms (F := F) (o.time - window) q) lo hi hw0 (by
+    intro p hp
+    obtain ⟨d, hd, e⟩ := mem_maTerms _ _ p hp
+    rw [e]; exact hb d hd)
+  rw [hsum] at h1 h2
+  simp only [divF]
+  exact ⟨(le_div_iff₀ hW).2 h1, (div_le_iff₀ hW).2 h2⟩
+
+/-- **C2, one update**: on a present sample not older than a sorted queue, the f32 moving average outputs
+`(Σ v_i·w_i)/W` over the window and that number lies between the least and greatest sample in the window -/
+theorem ma_convex (window : Int) (hw : 0 < window) (s : MaS F) (o : Datum F)
+    (hsort : Sorted s.queue) (hle : ∀ d ∈ s.queue, d.time ≤ o.time) :
+    ∃ x, Ma.step scaleF addF divF (some (c0 : F)) window s (.ok (some o)) =
+        .ok (⟨.ok (some ⟨o.time, x⟩), maWindow window s.queue o⟩, .ok ()) ∧
+      x = wsumR (maTerms (o.time - window) (maWindow window s.queue o)) / secs window ∧
+      ∀ lo hi, (∀ d ∈ maWindow window s.queue o, lo ≤ d.value ∧ d.value ≤ hi) → lo ≤ x ∧ x ≤ hi := by
+  obtain ⟨q, v, hacc, hstep, hwq, hq, _⟩ := ma_step_present_inv scaleF addF divF (some (c0 : F)) window hw
+    (fun _ => True) (fun _ => True) (fun _ _ _ => trivial) (fun a b _ _ => ⟨a + b, rfl, trivial⟩)
+    (fun _ _ => trivial) s o (fun _ _ => trivial) trivial hsort hle
+  subst hq
+  rw [accumulate_f32_eq] at hacc
+  injection hacc with hacc
+  injection hacc with hacc
+  subst hacc
+  refine ⟨_, hstep, rfl, ?_⟩
+  intro lo hi hb
+  exact (ma_value_convex window hw o _ hwq lo hi hb).2
+
+/-- **C2, every history**: after any non-decreasing history followed by a present sample `o`, the f32 moving
+average holds a value at time `o.time` that lies between the least and the greatest of the samples received
+since the last error whose timestamp is newer than `o.time − window` -/
+theorem ma_convex_history (window : Int) (hw : 0 < window) (pre : List (Output F)) (o : Datum F)
+    (hmono : NonDecr (pre ++ [.ok (some o)])) :
+    ∃ s x, runE (Ma.step scaleF addF divF (some (c0 : F)) window) Ma.init (pre ++ [.ok (some o)]) = .ok s ∧
+      Ma.get s = .ok (some ⟨o.time, x⟩) ∧
+      s.queue = (sinceReset [] pre ++ [o]).filter (fun d => decide (o.time - window < d.time)) ∧
+      x = wsumR (maTerms (o.time - window) s.queue) / secs window ∧
+      ∀ lo hi, (∀ d ∈ sinceReset [] pre ++ [o], o.time - window < d.time → lo ≤ d.value ∧ d.value ≤ hi) →
+        lo ≤ x ∧ x ≤ hi := by
+  obtain ⟨s, v, hrun, hval, hacc, hwq⟩ := ma_queue_invariant scaleF addF divF (some (c0 : F)) window hw
+    (fun _ => True) (fun _ => True) (fun _ _ _ => trivial) (fun a b _ _ => ⟨a + b, rfl, trivial⟩)
+    (fun _ _ => trivial) pre o (fun _ _ => trivial) hmono
+  obtain ⟨hq, hsr⟩ := ma_queue_is_window scaleF addF divF (some (c0 : F)) window hw pre o hmono s hrun
+  rw [hsr] at hq
+  rw [accumulate_f32_eq] at hacc
+  injection hacc with hacc
+  injection hacc with hacc
+  subst hacc
+  refine ⟨s, _, hrun, hval, hq, rfl, ?_⟩
+  intro lo hi hb
+  refine (ma_value_convex window hw o _ hwq lo hi ?_).2
+  intro d hd
+  rw [hq] at hd
+  obtain ⟨hd1, hd2⟩ := List.mem_filter.1 hd
+  exact hb d hd1 (by simpa using hd2)
+
+/-- **constant input ⇒ that constant** (every history: all samples in the window equal `c`) -/
+theorem ma_constant (window : Int) (hw : 0 < window) (pre : List (Output F)) (o : Datum F) (c : F)
+    (hmono : NonDecr (pre ++ [.ok (some o)]))
+    (hc : ∀ d ∈ sinceReset [] pre ++ [o], o.time - window < d.time → d.value = c) :
+    ∃ s, runE (Ma.step scaleF addF divF (some (c0 : F)) window) Ma.init (pre ++ [.ok (some o)]) = .ok s ∧
+      Ma.get s = .ok (some ⟨o.time, c⟩) := by
+  obtain ⟨s, x, hrun, hget, _, _, hb⟩ := ma_convex_history window hw pre o hmono
+  obtain ⟨h1, h2⟩ := hb c c (fun d hd ht => by rw [hc d hd ht]; exact ⟨le_refl _, le_refl _⟩)
+  have : x = c := le_antisymm h2 h1
+  subst this
+  exact ⟨s, hrun, hget⟩
+
+/-- **the first sample is returned unchanged**: one update from an empty queue (initial state, after an
+error event, after error-then-absent) outputs exactly the sample -/
+theorem ma_first_sample (window : Int) (hw : 0 < window) (s : MaS F) (o : Datum F) (hq : s.queue = []) :
+    Ma.step scaleF addF divF (some (c0 : F)) window s (.ok (some o)) =
+      .ok (⟨.ok (some o), [o]⟩, .ok ()) := by
+  obtain ⟨x, hstep, _, hb⟩ := ma_convex window hw s o (by rw [hq]; exact List.Pairwise.nil)
+    (by rw [hq]; intro d hd; cases hd)
+  have hwin : maWindow window s.queue o = [o] := by
+    have : ¬ o.time ≤ o.time - window := by omega
+    simp [maWindow, hq, List.dropWhile_cons, this]
+  rw [hwin] at hstep hb
+  obtain ⟨h1, h2⟩ := hb o.value o.value (by intro d hd; simp at hd; subst hd; exact ⟨le_refl _, le_refl _⟩)
+  have : x = o.value := le_antisymm h2 h1
+  subst this
+  exact hstep
+
+/-! ### EWMA -/
+
+/-- the f32 EWMA update in exact arithmetic: `prev·p + new·(1−p)`, `p = (1−smoothing)^Δt` -/
+theorem ewmaNext_f32 (smoothing pv : F) (dt : Int) (o : Datum F) :
+    ewmaNext scaleF addF smoothing pv dt o =
+      .ok (⟨.ok (some ⟨o.time, pv * FloatLike.powf (1 - smoothing) (secs dt) +
+        o.value * (1 - FloatLike.powf (1 - smoothing) (secs dt))⟩), some o.time⟩, .ok ()) := by
+  simp only [ewmaNext, addF, scaleF, ewmaLambda, c1_eq]
+  congr 6
+  ring
+
+theorem convex_bounds (a b p lo hi : F) (hp0 : 0 ≤ p) (hp1 : p ≤ 1)
+    (ha : lo ≤ a ∧ a ≤ hi) (hb : lo ≤ b ∧ b ≤ hi) :
+    lo ≤ a * p + b * (1 - p) ∧ a * p + b * (1 - p) ≤ hi := by
+  have h1 := mul_nonneg (sub_nonneg.2 ha.1) hp0
+  have h2 := mul_nonneg (sub_nonneg.2 hb.1) (sub_nonneg.2 hp1)
+  have h3 := mul_nonneg (sub_nonneg.2 ha.2) hp0
+  have h4 := mul_nonneg (sub_nonneg.2 hb.2) (sub_nonneg.2 hp1)
+  constructor <;> nlinarith
+
+/-- **C1, one update**: with `0 ≤ smoothing ≤ 1` and a sample not older than the previous one, the new value
+is `prev·(1−L) + new·L` and lies between `min prev new` and `max prev new`.
+`hpr` is the only fact about `powf` used: `b ∈ [0,1], d ≥ 0 ⇒ b^d ∈ [0,1]`. -/
+theorem ewma_convex (smoothing : F) (h0 : 0 ≤ smoothing) (h1 : smoothing ≤ 1)
+    (hpr : ∀ b d : F, 0 ≤ b → b ≤ 1 → 0 ≤ d → 0 ≤ FloatLike.powf b d ∧ FloatLike.powf b d ≤ 1)
+    (s : EwmaS F) (o prev : Datum F) (tp : Int) (hv : s.value = .ok (some prev)) (ht : s.updateTime = some tp)
+    (hmono : tp ≤ o.time) :
+    ∃ x, Ewma.step scaleF addF smoothing s (.ok (some o)) = .ok (⟨.ok (some ⟨o.time, x⟩), some o.time⟩, .ok ()) ∧
+      x = prev.value * (1 - ewmaLambda smoothing (o.time - tp)) + o.value * ewmaLambda smoothing (o.time - tp) ∧
+      min prev.value o.value ≤ x ∧ x ≤ max prev.value o.value ∧
+      ∀ lo hi, lo ≤ prev.value ∧ prev.value ≤ hi → lo ≤ o.value ∧ o.value ≤ hi → lo ≤ x ∧ x ≤ hi := by
+  rw [ewma_formula scaleF addF smoothing s o prev tp hv ht, ewmaNext_f32]
+  obtain ⟨hp0, hp1⟩ := hpr (1 - smoothing) (secs (o.time - tp)) (by linarith) (by linarith)
+    (secs_nonneg _ (by omega))
+  have hgen : ∀ lo hi, lo ≤ prev.value ∧ prev.value ≤ hi → lo ≤ o.value ∧ o.value ≤ hi →
+      lo ≤ prev.value * FloatLike.powf (1 - smoothing) (secs (o.time - tp)) +
+        o.value * (1 - FloatLike.powf (1 - smoothing) (secs (o.time - tp))) ∧
+      prev.value * FloatLike.powf (1 - smoothing) (secs (o.time - tp)) +
+        o.value * (1 - FloatLike.powf (1 - smoothing) (secs (o.time - tp))) ≤ hi :=
+    fun lo hi ha hb => convex_bounds _ _ _ lo hi hp0 hp1 ha hb
+  refine ⟨_, rfl, ?_, ?_, ?_, hgen⟩
+  · simp only [ewmaLambda, c1_eq]; ring
+  · exact (hgen (min prev.value o.value) (max prev.value o.value) ⟨min_le_left _ _, le_max_left _ _⟩
+      ⟨min_le_right _ _, le_max_right _ _⟩).1
+  · exact (hgen (min prev.value o.value) (max prev.value o.value) ⟨min_le_left _ _, le_max_left _ _⟩
+      ⟨min_le_right _ _, le_max_right _ _⟩).2
+
+/-- **the first sample is returned unchanged** (state without value: initial, after an error, after
+error-then-absent).  In exact arithmetic `o·(1−L) + o·L = o` for every `L`, so no fact about `powf` is needed;
+with `hp0 : powf b 0 = 1` one even has `L = 0` (see `ewma_first_sample_lambda`). -/
+theorem ewma_first_sample_unchanged (smoothing : F) (s : EwmaS F) (o : Datum F)
+    (hv : ∀ v, s.value ≠ .ok (some v)) :
+    Ewma.step scaleF addF smoothing s (.ok (some o)) = .ok (⟨.ok (some o), some o.time⟩, .ok ()) := by
+  rw [ewma_first_sample scaleF addF smoothing s o hv, ewmaNext_f32]
+  have : o.value * FloatLike.powf (1 - smoothing) (secs 0) +
+      o.value * (1 - FloatLike.powf (1 - smoothing) (secs 0)) = o.value := by ring
+  rw [this]
+
+/-- with `powf b 0 = 1` the first sample's weight `L` is exactly `0` -/
+theorem ewma_first_sample_lambda (smoothing : F) (hp0 : ∀ b : F, FloatLike.powf b (0 : F) = 1) :
+    ewmaLambda smoothing 0 = 0 := by
+  simp [ewmaLambda, secs_zero, hp0]
+
+/-- **C1, every history**: for `0 ≤ smoothing ≤ 1` and non-decreasing timestamps, no update panics and the
+value held at the end (if any) lies between the least and the greatest sample received since the last error -/
+theorem ewma_run_bounds (smoothing : F) (h0 : 0 ≤ smoothing) (h1 : smoothing ≤ 1)
+    (hpr : ∀ b d : F, 0 ≤ b → b ≤ 1 → 0 ≤ d → 0 ≤ FloatLike.powf b d ∧ FloatLike.powf b d ≤ 1)
+    (evs : List (Output F)) (hmono : NonDecr evs) (s : EwmaS F) (acc : List (Datum F)) (hinv : EwmaInv s)
+    (hs : ∀ v, s.value = .ok (some v) →
+      (∀ lo hi, (∀ d ∈ acc, lo ≤ d.value ∧ d.value ≤ hi) → lo ≤ v.value ∧ v.value ≤ hi) ∧
+      ∀ t ∈ presentTimes evs, v.time ≤ t) :
+    ∃ s', runE (Ewma.step scaleF addF smoothing) s evs = .ok s' ∧
+      ∀ v, s'.value = .ok (some v) →
+        ∀ lo hi, (∀ d ∈ sinceReset acc evs, lo ≤ d.value ∧ d.value ≤ hi) → lo ≤ v.value ∧ v.value ≤ hi := by
+  induction evs generalizing s acc with
+  | nil => exact ⟨s, rfl, fun v hv => (hs v hv).1⟩
+  | cons e es ih =>
+    match e with
+    | .error er =>
+      simp only [runE, Ewma.step, sinceReset]
+      simp only [NonDecr, presentTimes] at hmono
+      exact ih hmono _ [] (fun v h => by cases h) (fun v h => by cases h)
+    | .ok none =>
+      simp only [NonDecr, presentTimes] at hmono hs
+      simp only [runE, ewma_absent_event, sinceReset]
+      obtain ⟨val, ut⟩ := s
+      cases val with
+      | error er => exact ih hmono _ acc (fun v h => by cases h) (fun v h => by cases h)
+      | ok val => exact ih hmono _ acc hinv hs
+    | .ok (some o) =>
+      simp only [NonDecr, presentTimes, List.pairwise_cons] at hmono
+      simp only [presentTimes, List.mem_cons, forall_eq_or_imp] at hs
+      simp only [sinceReset]
+      by_cases hv : ∃ prev, s.value = .ok (some prev)
+      · obtain ⟨prev, hv⟩ := hv
+        obtain ⟨hs1, hs2, _⟩ := hs prev hv
+        obtain ⟨x, hstep, _, _, _, hgen⟩ := ewma_convex smoothing h0 h1 hpr s o prev prev.time hv (hinv prev hv) hs2
+        simp only [runE, hstep]
+        refine ih hmono.2 _ (acc ++ [o]) (fun v h => by injection h with h; injection h with h; rw [← h]) ?_
+        intro v h
+        injection h with h
+        injection h with h
+        subst h
+        refine ⟨?_, hmono.1⟩
+        intro lo hi hb
+        exact hgen lo hi (hs1 lo hi (fun d hd => hb d (List.mem_append_left _ hd))) (hb o (by simp))
+      · have hstep := ewma_first_sample_unchanged smoothing s o (fun v h => hv ⟨v, h⟩)
+        simp only [runE, hstep]
+        refine ih hmono.2 _ (acc ++ [o]) (fun v h => by injection h with h; injection h with h; rw [← h]) ?_
+        intro v h
+        injection h with h
+        injection h with h
+        subst h
+        exact ⟨fun lo hi hb => hb o (by simp), hmono.1⟩
+
+/-- C1 from the initial state -/
+theorem ewma_convex_history (smoothing : F) (h0 : 0 ≤ smoothing) (h1 : smoothing ≤ 1)
+    (hpr : ∀ b d : F, 0 ≤ b → b ≤ 1 → 0 ≤ d → 0 ≤ FloatLike.powf b d ∧ FloatLike.powf b d ≤ 1)
+    (evs : List (Output F)) (hmono : NonDecr evs) :
+    ∃ s', runE (Ewma.step scaleF addF smoothing) Ewma.init evs = .ok s' ∧
+      ∀ v, Ewma.get s' = .ok (some v) →
+        ∀ lo hi, (∀ d ∈ sinceReset [] evs, lo ≤ d.value ∧ d.value ≤ hi) → lo ≤ v.value ∧ v.value ≤ hi :=
+  ewma_run_bounds smoothing h0 h1 hpr evs hmono Ewma.init [] ewma_init_inv (fun v h => by cases h)
+
+/-- **constant input ⇒ that constant** -/
+theorem ewma_constant (smoothing : F) (h0 : 0 ≤ smoothing) (h1 : smoothing ≤ 1)
+    (hpr : ∀ b d : F, 0 ≤ b → b ≤ 1 → 0 ≤ d → 0 ≤ FloatLike.powf b d ∧ FloatLike.powf b d ≤ 1)
+    (evs : List (Output F)) (hmono : NonDecr evs) (c : F) (hc : ∀ d ∈ sinceReset [] evs, d.value = c) :
+    ∃ s', runE (Ewma.step scaleF addF smoothing) Ewma.init evs = .ok s' ∧
+      ∀ v, Ewma.get s' = .ok (some v) → v.value = c := by
+  obtain ⟨s', hrun, hb⟩ := ewma_convex_history smoothing h0 h1 hpr evs hmono
+  refine ⟨s', hrun, fun v hv => ?_⟩
+  obtain ⟨a, b⟩ := hb v hv c c (fun d hd => by rw [hc d hd]; exact ⟨le_refl _, le_refl _⟩)
+  exact le_antisymm b a
+
+end R
+
+/-! ## tier S / L: the f32 and Quantity variants produce the same numbers -/
+section L
+variable {F : Type} [Add F] [Sub F] [Mul F] [Div F] [Neg F] [LT F] [LE F] [BEq F]
+  [DecidableLT F] [DecidableLE F] [FloatLike F]
+
+/-- forget the unit -/
+def projD (d : Datum (Quantity F)) : Datum F := ⟨d.time, d.value.value⟩
+def projOut : Output (Quantity F) → Output F
+  | .error e => .error e
+  | .ok none => .ok none
+  | .ok (some d) => .ok (some (projD d))
+
+/-- componentwise relation between a Quantity EWMA state and an f32 EWMA state -/
+def EwmaRel (sq : EwmaS (Quantity F)) (sf : EwmaS F) : Prop :=
+  sf.value = projOut sq.value ∧ sf.updateTime = sq.updateTime
+
+/-- componentwise relation between a Quantity moving-average state and an f32 one -/
+def MaRel (sq : MaS (Quantity F)) (sf : MaS F) : Prop :=
+  sf.value = projOut sq.value ∧ sf.queue = sq.queue.map projD
+
+theorem qadd_value (chk : Bool) (a b v : Quantity F) (h : Quantity.add chk a b = .ok v) :
+    v.value = a.value + b.value := by
+  simp only [Quantity.add] at h
+  split at h
+  · injection h with h; rw [← h]
+  · cases h
+
+theorem ewmaNext_agree (chk : Bool) (smoothing : F) (pv : Quantity F) (dt : Int) (o : Datum (Quantity F))
+    (sq' : EwmaS (Quantity F)) (r : UpdRet)
+    (h : ewmaNext (scaleQdl chk) (Quantity.add chk) smoothing pv dt o = .ok (sq', r)) :
+    ∃ sf', ewmaNext scaleF addF smoothing pv.value dt (projD o) = .ok (sf', r) ∧ EwmaRel sq' sf' := by
+  simp only [ewmaNext] at h
+  cases ha : Quantity.add chk (scaleQdl chk pv (c1 - ewmaLambda smoothing dt))
+      (scaleQdl chk o.value (ewmaLambda smoothing dt)) with
+  | error p => rw [ha] at h; cases h
+  | ok v =>
+    rw [ha] at h
+    injection h with h
+    injection h with h1 h2
+    subst h1
+    subst h2
+    have hv := qadd_value chk _ _ v ha
+    refine ⟨⟨.ok (some ⟨o.time, v.value⟩), some o.time⟩, ?_, rfl, rfl⟩
+    simp only [ewmaNext, addF, scaleF, projD]
+    rw [hv]
+    rfl
+
+/-- **D, EWMA, one update** (no law needed): from related states, if the Quantity update does not panic, the
+f32 update on the raw numbers does not panic, returns the same `update` result and a related state -/
+theorem ewma_variants_agree_step (chk : Bool) (smoothing : F) (sq : EwmaS (Quantity F)) (sf : EwmaS F)
+    (inp : Output (Quantity F)) (hrel : EwmaRel sq sf) (sq' : EwmaS (Quantity F)) (r : UpdRet)
+    (h : Ewma.step (scaleQdl chk) (Quantity.add chk) smoothing sq inp = .ok (sq', r)) :
+    ∃ sf', Ewma.step scaleF addF smoothing sf (projOut inp) = .ok (sf', r) ∧ EwmaRel sq' sf' := by
+  obtain ⟨vq, tq⟩ := sq
+  obtain ⟨vf, tf⟩ := sf
+  obtain ⟨h1, h2⟩ := hrel
+  simp only at h1 h2
+  subst h1
+  subst h2
+  match inp with
+  | .error e =>
+    simp only [Ewma.step] at h
+    injection h with h
+    injection h with h1 h2
+    subst h1; subst h2
+    exact ⟨⟨.error e, none⟩, rfl, rfl, rfl⟩
+  | .ok none =>
+    cases vq with
+    | error e =>
+      simp only [Ewma.step] at h
+      injection h with h
+      injection h with h1 h2
+      subst h1; subst h2
+      exact ⟨⟨.ok none, none⟩, rfl, rfl, rfl⟩
+    | ok v =>
+      simp only [Ewma.step] at h
+      injection h with h
+      injection h with h1 h2
+      subst h1; subst h2
+      refine ⟨⟨projOut (.ok v), tq⟩, ?_, rfl, rfl⟩
+      cases v <;> rfl
+  | .ok (some o) =>
+    by_cases hv : ∃ prev, vq = .ok (some prev)
+    · obtain ⟨prev, hv⟩ := hv
+      subst hv
+      cases tq with
+      | none => simp only [Ewma.step] at h; cases h
+      | some tp =>
+        rw [ewma_formula _ _ smoothing _ o prev tp rfl rfl] at h
+        obtain ⟨sf', hs, hr⟩ := ewmaNext_agree chk smoothing prev.value (o.time - tp) o sq' r h
+        refine ⟨sf', ?_, hr⟩
+        rw [← hs]
+        exact ewma_formula scaleF addF smoothing _ (projD o) (projD prev) tp rfl rfl
+    · rw [ewma_first_sample _ _ smoothing _ o (fun v h => hv ⟨v, h⟩)] at h
+      obtain ⟨sf', hs, hr⟩ := ewmaNext_agree chk smoothing o.value 0 o sq' r h
+      refine ⟨sf', ?_, hr⟩
+      rw [← hs]
+      refine ewma_first_sample scaleF addF smoothing _ (projD o) ?_
+      intro v h'
+      simp only at h'
+      match vq, hv, h' with
+      | .error _, _, h' => cases h'
+      | .ok none, _, h' => cases h'
+      | .ok (some p), hv, _ => exact hv ⟨p, rfl⟩
+
+/-- **D, EWMA, every history**: as long as the Quantity stream does not panic, the f32 stream fed the raw
+numbers does not panic either and holds the same numbers (value, timestamp, error) -/
+theorem ewma_variants_agree (chk : Bool) (smoothing : F) (evs : List (Output (Quantity F)))
+    (sq : EwmaS (Quantity F)) (sf : EwmaS F) (hrel : EwmaRel sq sf) (sq' : EwmaS (Quantity F))
+    (h : runE (Ewma.step (scaleQdl chk) (Quantity.add chk) smoothing) sq evs = .ok sq') :
+    ∃ sf', runE (Ewma.step scaleF addF smoothing) sf (evs.map projOut) = .ok sf' ∧ EwmaRel sq' sf' ∧
+      Ewma.get sf' = projOut (Ewma.get sq') := by
+  induction evs generalizing sq sf with
+  | nil =>
+    simp only [runE] at h
+    injection h with h
+    subst h
+    exact ⟨sf, rfl, hrel, hrel.1⟩
+  | cons e es ih =>
+    simp only [runE] at h
+    cases hs : Ewma.step (scaleQdl chk) (Quantity.add chk) smoothing sq e with
+    | error p => rw [hs] at h; cases h
+    | ok r =>
+      rw [hs] at h
+      obtain ⟨sf1, hf, hrel1⟩ := ewma_variants_agree_step chk smoothing sq sf e hrel r.1 r.2 hs
+      simp only [List.map_cons, runE, hf]
+      exact ih r.1 sf1 hrel1 h
+
+theorem ewma_init_rel : EwmaRel (Ewma.init : EwmaS (Quantity F)) (Ewma.init : EwmaS F) := ⟨rfl, rfl⟩
+
+/-! ### moving average: needs the single law `0 + x = x` (the generic impl starts from `T::default()`) -/
+
+theorem trim_map (cut : Int) (l q : List (Datum (Quantity F))) (h : Ma.trim cut l = .ok q) :
+    Ma.trim cut (l.map projD) = .ok (q.map projD) := by
+  induction l with
+  | nil => simp only [Ma.trim] at h; cases h
+  | cons d ds ih =>
+    simp only [List.map_cons, Ma.trim] at h ⊢
+    by_cases hd : d.time ≤ cut
+    · have hd' : (projD d).time ≤ cut := hd
+      simp only [hd, hd', if_true] at h ⊢
+      exact ih h
+    · have hd' : ¬ (projD d).time ≤ cut := hd
+      simp only [hd, hd', if_false] at h ⊢
+      injection h with h
+      rw [← h]
+      rfl
+
+theorem weightsNs_map (cut : Int) (q : List (Datum (Quantity F))) :
+    Ma.weightsNs cut (q.map projD) = Ma.weightsNs cut q := by
+  induction q generalizing cut with
+  | nil => rfl
+  | cons d ds ih =>
+    simp only [List.map_cons, Ma.weightsNs]
+    rw [ih]
+    rfl
+
+theorem maTerms_map (cut : Int) (q : List (Datum (Quantity F))) :
+    maTerms (F := F) cut (q.map projD) = (maTerms (F := F) cut q).map (fun p => (p.1.value, p.2)) := by
+  simp only [maTerms, weightsNs_map]
+  generalize (Ma.weightsNs cut q).map (fun n => (secs n : F)) = ws
+  induction q generalizing ws with
+  | nil => simp
+  | cons d ds ih =>
+    cases ws with
+    | nil => simp
+    | cons w ws =>
+      simp only [List.map_cons, List.zip_cons_cons, ih ws]
+      rfl
+
+theorem accumulate_agree_some (chk : Bool) (l : List (Quantity F × F)) (a v : Quantity F)
+    (h : Ma.accumulate (scaleQs chk) (Quantity.add chk) (some a) l = .ok (some v)) :
+    Ma.accumulate scaleF addF (some a.value) (l.map (fun p => (p.1.value, p.2))) = .ok (some v.value) := by
+  induction l generalizing a with
+  | nil =>
+    simp only [Ma.accumulate] at h
+    injection h with h
+    injection h with h
+    rw [h]
+    rfl
+  | cons p rest ih =>
+    obtain ⟨x, w⟩ := p
+    simp only [Ma.accumulate] at h
+    cases ha : Quantity.add chk a (scaleQs chk x w) with
+    | error e => rw [ha] at h; cases h
+    | ok a' =>
+      rw [ha] at h
+      have hv := qadd_value chk _ _ a' ha
+      simp only [List.map_cons, Ma.accumulate, addF, scaleF]
+      have := ih a' h
+      rw [hv] at this
+      exact this
+
+/-- the Quantity impl starts from the first term, the generic impl from `0 +` the first term -/
+theorem accumulate_agree (chk : Bool) (hzero : ∀ x : F, c0 + x = x) (l : List (Quantity F × F)) (v : Quantity F)
+    (h : Ma.accumulate (scaleQs chk) (Quantity.add chk) none l = .ok (some v)) :
+    Ma.accumulate scaleF addF (some (c0 : F)) (l.map (fun p => (p.1.value, p.2))) = .ok (some v.value) := by
+  cases l with
+  | nil => simp only [Ma.accumulate] at h; cases h
+  | cons p rest =>
+    obtain ⟨x, w⟩ := p
+    simp only [Ma.accumulate] at h
+    have := accumulate_agree_some chk rest _ v h
+    simp only [List.map_cons, Ma.accumulate, addF, scaleF, hzero]
+    exact this
+
+/-- **D, moving average, one update** (law `hzero : 0 + x = x`): from related states, if the Quantity update
+does not panic, the f32 update on the raw numbers returns the same `update` result and a related state -/
+theorem ma_variants_agree_step (chk : Bool) (hzero : ∀ x : F, c0 + x = x) (window : Int)
+    (sq : MaS (Quantity F)) (sf : MaS F) (inp : Output (Quantity F)) (hrel : MaRel sq sf)
+    (sq' : MaS (Quantity F)) (r : UpdRet)
+    (h : Ma.step (scaleQs chk) (Quantity.add chk) (divQs chk) none window sq inp = .ok (sq', r)) :
+    ∃ sf', Ma.step scaleF addF divF (some (c0 : F)) window sf (projOut inp) = .ok (sf', r) ∧ MaRel sq' sf' := by
+  obtain ⟨vq, qq⟩ := sq
+  obtain ⟨vf, qf⟩ := sf
+  obtain ⟨h1, h2⟩ := hrel
+  simp only at h1 h2
+  subst h1
+  subst h2
+  match inp with
+  | .error e =>
+    simp only [Ma.step] at h
+    injection h with h
+    injection h with h1 h2
+    subst h1; subst h2
+    exact ⟨⟨.error e, []⟩, rfl, rfl, rfl⟩
+  | .ok none =>
+    rw [ma_absent_event] at h
+    injection h with h
+    injection h with h1 h2
+    subst h1; subst h2
+    refine ⟨_, ma_absent_event _ _ _ _ _ _, ?_, rfl⟩
+    cases vq with
+    | error e => rfl
+    | ok v => cases v <;> rfl
+  | .ok (some o) =>
+    simp only [Ma.step] at h
+    cases ht : Ma.trim (o.time - window) (qq ++ [o]) with
+    | error p => rw [ht] at h; cases h
+    | ok q =>
+      rw [ht] at h
+      simp only at h
+      have ht' : Ma.trim ((projD o).time - window) (qq.map projD ++ [projD o]) = .ok (q.map projD) := by
+        have := trim_map (o.time - window) (qq ++ [o]) q ht
+        simpa using this
+      cases hacc : Ma.accumulate (scaleQs chk) (Quantity.add chk) none (maTerms (o.time - window) q) with
+      | error p => simp only [maTerms] at hacc; rw [hacc] at h; cases h
+      | ok ov =>
+        cases ov with
+        | none => simp only [maTerms] at hacc; rw [hacc] at h; cases h
+        | some v =>
+          have hacc' := accumulate_agree chk hzero _ v hacc
+          rw [← maTerms_map] at hacc'
+          simp only [maTerms] at hacc
+          rw [hacc] at h
+          injection h with h
+          injection h with h1 h2
+          subst h1; subst h2
+          refine ⟨_, ma_step_present_eq scaleF addF divF _ window _ (projD o) (q.map projD) v.value ht' hacc',
+            rfl, rfl⟩
+
+/-- **D, moving average, every history** -/
+theorem ma_variants_agree (chk : Bool) (hzero : ∀ x : F, c0 + x = x) (window : Int)
+    (evs : List (Output (Quantity F))) (sq : MaS (Quantity F)) (sf : MaS F) (hrel : MaRel sq sf)
+    (sq' : MaS (Quantity F))
+    (h : runE (Ma.step (scaleQs chk) (Quantity.add chk) (divQs chk) none window) sq evs = .ok sq') :
+    ∃ sf', runE (Ma.step scaleF addF divF (some (c0 : F)) window) sf (evs.map projOut) = .ok sf' ∧
+      MaRel sq' sf' ∧ Ma.get sf' = projOut (Ma.get sq') := by
+  induction evs generalizing sq sf with
+  | nil =>
+    simp only [runE] at h
+    injection h with h
+    subst h
+    exact ⟨sf, rfl, hrel, hrel.1⟩
+  | cons e es ih =>
+    simp only [runE] at h
+    cases hs : Ma.step (scaleQs chk) (Quantity.add chk) (divQs chk) none window sq e with
+    | error p => rw [hs] at h; cases h
+    | ok r =>
+      rw [hs] at h
+      obtain ⟨sf1, hf, hrel1⟩ := ma_variants_agree_step chk hzero window sq sf e hrel r.1 r.2 hs
+      simp only [List.map_cons, runE, hf]
+      exact ih r.1 sf1 hrel1 h
+
+theorem ma_init_rel : MaRel (Ma.init : MaS (Quantity F)) (Ma.init : MaS F) := ⟨rfl, rfl⟩
+
+end L
+
 end Rrtk.Thm.C12
